@@ -271,6 +271,26 @@ Section Top.
     - exfalso. exact (parse_total _ E).
   Qed.
 
+  (** every selection node's position is the position of a token of the input *)
+  Corollary parse_positions_are_token_positions ts d es p :
+    ParseDocument ts = Out (Some d) es -> In p (positions_document d) -> In p (token_positions ts).
+  Proof.
+    intros H Hi. destruct (parse_document_tree _ _ _ H) as (L & _).
+    apply recorded_layout in L. unfold token_positions. rewrite <- map_map.
+    eapply subseq_in; [|exact Hi]. eapply subseq_trans; [apply positions_document_subseq|exact L].
+  Qed.
+
+  (** the parser error of a rejection lies inside the text: whatever holds of the positions of all
+      tokens and of the end of the input (e.g. [1 <= line <= lines + 1]) holds of it *)
+  Corollary parse_error_inside_text (Inside : pos -> Prop) ts es :
+    Forall Inside (token_positions ts) -> Inside eof_pos ->
+    ParseDocument ts = Out None es -> exists pre p, es = pre ++ [p] /\ Inside p.
+  Proof.
+    intros Ht He H. destruct (parse_error_located _ _ H) as (pre & p & E & _ & [Hi| ->]).
+    - exists pre, p. split; [exact E|]. rewrite Forall_forall in Ht. apply Ht. exact Hi.
+    - exists pre, eof_pos. auto.
+  Qed.
+
   (** ** values *)
 
   Lemma parse_value_top_sat ts fuel s :
